@@ -426,7 +426,9 @@ class InstallStream(Stream):
     rule = ("histories of 1..4 runs of the real install_requirements (real HomeAssistant object, MockConfigEntry, real "
             "async_update_entry; HA's installer and importlib.metadata.version replaced by a recording fake environment) on generated "
             "requirement trees: exhaustive block wanted{unpinned,1.0,1.0.0,2.0} x installed{none,1.0,1.0.0,2.0,3.0} x "
-            "recorded{none,1.0,1.0.0,2.0,3.0} x allow_all_imports{on,off}, each run twice; random histories with external "
+            "recorded{none,1.0,1.0.0,2.0,3.0} x allow_all_imports{on,off}, each run twice; after every pass both the live entry.data "
+            "record and the record as PERSISTED (snapshot of what was last handed to async_update_entry; a change of "
+            "allow_all_imports reloads the entry from it) are observed and judged; random histories with external "
             "installs/upgrades/removals between runs, changing requirement files, packages missing from the index; non-trivial = a "
             "package is both required and installed or recorded, or a later run follows an installing run; distinct by the whole history")
     requires = "From PV Require Import Req.Merge Req.Install Req.Spec Req.ReqCheck.\nFrom Coq Require Import String.\nOpen Scope string_scope."
@@ -506,9 +508,9 @@ class InstallStream(Stream):
                 "true" if st["allow"] else "false", qfiles(st["files"], o["order"]), qalist(st.get("index", [])))
             args = None if o["args"] is None else qlist(qs(a) for a in o["args"])
             steps.append("{| hs_in := %s; hs_table := %s; hs_env_before := %s; hs_kind := %d%%N; hs_args := %s; hs_rec_after := %s; "
-                         "hs_updated := %s; hs_env_after := %s |}" % (
+                         "hs_persisted := %s; hs_updated := %s; hs_env_after := %s |}" % (
                              sin, qrows(o["table"]), qalist(o["env_before"]), o["kind"], qopt(args), qalist(o["rec_after"]),
-                             "true" if o["updated"] else "false", qalist(o["env_after"])))
+                             qalist(o["persisted"]), "true" if o["updated"] else "false", qalist(o["env_after"])))
         return "{| hc_ranks := %s; hc_env0 := %s; hc_rec0 := %s; hc_steps := %s |}" % (
             qranks(obs["ranks"]), qalist(case.get("env0", [])), qalist(case.get("rec0") or []), qlist(steps))
 
@@ -530,7 +532,8 @@ class InstallStream(Stream):
     def describe(self, case, obs):
         return {"profile": case.get("profile"), "installed0": case.get("env0"), "record0": case.get("rec0"),
                 "steps": [{"allow": s["allow"], "external": s.get("ext"), "files": [(f["dir"], f["lines"]) for f in s["files"]],
-                           "installer_args": o["args"], "record_after": o["rec_after"], "raised": o["error"]}
+                           "installer_args": o["args"], "record_after": o["rec_after"], "persisted_record": o["persisted"],
+                           "update_entry_called": o["updated"], "raised": o["error"]}
                           for s, o in zip(case["steps"][:3], obs["steps"][:3])]}
 
 
